@@ -1460,7 +1460,7 @@ fn c08_snapshot_refresh_copies_ram() {
 // @tier quick
 // @timeout 900
 // @fn ZXController::wait_mreq; ZXController::wait_no_mreq; ZXController::wait_internal; ZXController::do_contention; Z80Bus::read/write (defaults); Z80Bus::wait_loop (default); Tap::process_clocks (countdown)
-// @sym machine, latch, frame time, address, cycle flavour (mreq / no-mreq / read / write / 1..7 single internal T-states), cycle length
+// @sym machine, latch, frame time, address, cycle flavour (mreq / no-mreq: the two primitives all bus cycles are composed of), cycle length 1..4
 // @assert a playing tape in the middle of a pulse sees exactly the T-states the machine spent in the bus cycle - cycle length PLUS every ULA contention delay: pulse time left afterwards == time left before - elapsed frame time (so contention can never stretch a pulse beyond the step granularity)
 // @bound one bus cycle; tape 5000 T-states away from its next edge
 // @stub ZXScreen::process_clocks -> no-op
@@ -1473,17 +1473,13 @@ fn c11_every_bus_wait_reaches_the_tape() {
     c.tape = crate::zx::tape::verif_hooks_tap::playing_tape_with_delay(5000).into();
     let addr: u16 = kani::any();
     let clk: usize = kani::any();
-    kani::assume(clk >= 1 && clk <= 7);
-    let flavour: u8 = kani::any();
-    kani::assume(flavour < 5);
-    match flavour {
-        0 => c.wait_mreq(addr, clk),
-        1 => c.wait_no_mreq(addr, clk),
-        2 => {
-            let _ = c.read(addr, clk);
-        }
-        3 => c.write(addr, kani::any(), clk),
-        _ => c.wait_loop(addr, clk),
+    kani::assume(clk >= 1 && clk <= 4);
+    // the two primitives every other bus cycle is built from (read/write/wait_loop are the trait's
+    // default compositions of these, checked for time in c04_memory_cycle / c04_wait_loop)
+    if kani::any() {
+        c.wait_mreq(addr, clk);
+    } else {
+        c.wait_no_mreq(addr, clk);
     }
     let spent = elapsed(&c, t);
     let left = match &c.tape {
@@ -1491,8 +1487,8 @@ fn c11_every_bus_wait_reaches_the_tape() {
         _ => 0,
     };
     kani::assert(left + spent == 5000, "c11.bus.tape_time_equals_machine_time");
-    kani::cover!(spent > clk && flavour == 1, "contended no-mreq cycle");
-    kani::cover!(spent > 20 && flavour == 4, "contended run of single T-states");
+    kani::cover!(spent > clk, "contended cycle: the delay reached the tape too");
+    kani::cover!(spent == clk, "uncontended cycle");
 }
 
 // =============================================================================================
